@@ -396,6 +396,19 @@ func c15DecoderCases(c *Ctx) []c15Case {
 			cases = append(cases, k)
 		}
 	}
+	// sparse coefficient patterns (single basis functions at all 63 AC positions, pairs with
+	// row/column 7, 8-periodic stripes) from both independent encoders
+	for _, content := range []string{"basis", "basis2", "rowstripes", "colstripes"} {
+		for _, q := range []int{100, 95, 75} {
+			for _, comps := range []int{1, 3} {
+				for rep := 0; rep < c.N(2, 8); rep++ {
+					add("imagejpeg", 64, 64, comps, q, content)
+					add("ref", 64, 64, comps, q, content)
+				}
+				add("ref", rng.Range(9, 80), rng.Range(9, 80), comps, q, content)
+			}
+		}
+	}
 	// larger
 	big := [][2]int{{64, 64}, {100, 75}, {256, 256}, {255, 129}, {131, 256}}
 	if c.Thor {
@@ -492,7 +505,7 @@ func c15DecOne(c *Ctx, k c15Case, sample bool) {
 		rcls = "n"
 	}
 	c.R.Case(key, k.Content != "const" && k.Content != "black" && k.Content != "white", "c15.dec.src."+k.Src, "c15.dec.sampling."+k.Opt.Sampling,
-		"c15.dec.restart."+rcls, "c15.dec."+qClass(k.Opt.Quality), "c15.dec."+sizeBucket(k.W, k.H), fmt.Sprintf("c15.dec.opthuff.%v", k.Opt.OptHuff))
+		"c15.dec.restart."+rcls, "c15.dec."+qClass(k.Opt.Quality), "c15.dec."+sizeBucket(k.W, k.H), fmt.Sprintf("c15.dec.opthuff.%v", k.Opt.OptHuff), "c15.dec.content."+k.Content)
 	if sample {
 		c.R.Sample(k)
 	}
